@@ -270,6 +270,8 @@ impl<'a> ExprAST<'a> {
                     "false".into()
                 }
             }
+            // there are no escapes: use the quote the payload does not contain
+            String(value) if value.contains('"') => "'".to_string() + &value + "'",
             String(value) => "\"".to_string() + &value + "\"",
         }
     }
@@ -291,36 +293,54 @@ impl<'a> ExprAST<'a> {
         ans
     }
 
+    fn paren_expr(&self) -> String {
+        "(".to_string() + &self.expr() + ")"
+    }
+
     fn unary_expr(&self, op: &'a str, rhs: &ExprAST) -> String {
-        op.to_string() + " " + &rhs.expr()
+        // a prefix operator takes a primary: anything looser needs parentheses
+        match rhs {
+            ExprAST::Binary(..) | ExprAST::Ternary(..) => op.to_string() + " " + &rhs.paren_expr(),
+            _ => op.to_string() + " " + &rhs.expr(),
+        }
     }
 
     fn binary_expr(&self, op: &'a str, lhs: &ExprAST, rhs: &ExprAST) -> String {
-        let left = {
-            let (is, precidence) = lhs.get_precidence();
-            let mut tmp: String = lhs.expr();
-            if is && precidence < InfixOpManager::new().get_precidence(op) {
-                tmp = "(".to_string() + &lhs.expr() + &")".to_string();
-            }
-            tmp
+        // same comparisons as parse_op(): the left child stays bare only if the parser
+        // would have finished it before taking `op`, the right child only if the parser
+        // would have pulled it into the right operand of `op`
+        let (l_bp, r_bp) = InfixOpManager::new().get_precidence(op);
+        let left = match lhs {
+            ExprAST::Ternary(..) => lhs.paren_expr(),
+            ExprAST::Binary(..) if lhs.get_precidence().1 .1 < l_bp => lhs.paren_expr(),
+            _ => lhs.expr(),
         };
-        let right = {
-            let (is, precidence) = rhs.get_precidence();
-            let mut tmp = rhs.expr();
-            if is && precidence < InfixOpManager::new().get_precidence(op) {
-                tmp = "(".to_string() + &rhs.expr() + &")".to_string();
-            }
-            tmp
+        let right = match rhs {
+            ExprAST::Ternary(..) => rhs.paren_expr(),
+            ExprAST::Binary(..) if rhs.get_precidence().1 .0 <= r_bp => rhs.paren_expr(),
+            _ => rhs.expr(),
         };
         left + " " + op + " " + &right
     }
 
     fn postfix_expr(&self, lhs: &ExprAST, op: &str) -> String {
-        lhs.expr() + " " + op
+        // a postfix operator applies to the single token before it
+        match lhs {
+            ExprAST::Binary(..)
+            | ExprAST::Ternary(..)
+            | ExprAST::Unary(..)
+            | ExprAST::Postfix(..) => lhs.paren_expr() + " " + op,
+            _ => lhs.expr() + " " + op,
+        }
     }
 
     fn ternary_expr(&self, condition: &ExprAST, lhs: &ExprAST, rhs: &ExprAST) -> String {
-        condition.expr() + " ? " + &lhs.expr() + " : " + &rhs.expr()
+        // conditionals nest to the right: one used as a condition needs parentheses
+        let condition = match condition {
+            ExprAST::Ternary(..) => condition.paren_expr(),
+            _ => condition.expr(),
+        };
+        condition + " ? " + &lhs.expr() + " : " + &rhs.expr()
     }
 
     fn list_expr(&self, params: Vec<ExprAST>) -> String {
